@@ -97,6 +97,10 @@ class UnitX(Unit):
             out.spec(spec_section('X_spec.rs', 'facet-spec'))
             self._trusted += sections(out, 'X_glue.rs', ['restrictions-default'])
             self.emit_facets(out, G, probe)
+            out.spec(spec_section('X_spec.rs', 'simple-type-spec'))
+            G.verbatim(out, 'model/mod.rs', 'trait', 'TryFromNode')
+            self._trusted += sections(out, 'X_glue.rs', ['simple-callees'])
+            self.emit_simple(out, G, probe)
             out.spec('}\n' + TAIL)
             return out
         out.spec(spec_section('X_spec.rs', 'field-flags-spec' if with_field else 'field-relation-uninterp'))
@@ -224,6 +228,39 @@ class UnitX(Unit):
                   inserts=[{'pos': 'body_start', 'text': reveal('attribute', 'sequence', 'choice', 'all', 'minOccurs', 'maxOccurs', 'use', 'required', '0', '1', 'any', 'ref', 'name', 'type', 'targetNamespace', 'body', 'xml')},
                            {'at': 'let parent_is_optional', 'text': GROUPS_HINT},
                            {'at': 'if node.tag_name().name() == "any"', 'text': FLAGS_HINT}])
+        close_container(out, im, f)
+
+    def emit_simple(self, out, G, probe):
+        rel = 'model/structures/simple.rs'
+        f = SRC + rel
+        im = G.top(rel, 'impl', r'.*TryFromNode.* for SimpleProps')
+        open_container(out, im, f)
+        for c in im.children:
+            if c.kind == 'type':
+                emit_verbatim(out, c, f)
+        fn = child(im, 'fn', 'try_from_node')
+        UNIQ = '''
+            proof {
+                assert(first_restriction(node, restriction));
+                assert forall|r: Node| first_restriction(node, r) implies r == restriction by {
+                    let i = choose|i: int| 0 <= i < all_kids(node).len() && #[trigger] all_kids(node)[i] == r && is_restr(r) && forall|j: int| 0 <= j < i ==> !is_restr(#[trigger] all_kids(node)[j]);
+                    let k = choose|i: int| 0 <= i < all_kids(node).len() && #[trigger] all_kids(node)[i] == restriction && is_restr(restriction) && forall|j: int| 0 <= j < i ==> !is_restr(#[trigger] all_kids(node)[j]);
+                    if i < k { assert(!is_restr(all_kids(node)[i])); }
+                    if k < i { assert(!is_restr(all_kids(node)[k])); }
+                }
+            }
+'''
+        splice_fn(out, fn, f, 'simple::SimpleProps::try_from_node', probe=probe,
+                  ensures=[('facets-of-its-restriction', 'res is Ok ==> simple_ok(node, res->Ok_0)')],
+                  origin={'facets-of-its-restriction': 'property'},
+                  closures=[{'at': '|n| n.is_element() && n.tag_name().name() == "restriction"', 'ensures': 'b == is_restr(*n)'},
+                            {'at': '|n| n.is_element() && n.tag_name().name() == "list"', 'ensures': 'b ==> !is_restr(*n)'},
+                            {'at': '|n| n.is_element() && n.tag_name().name() == "union"', 'ensures': 'b ==> !is_restr(*n)'},
+                            {'at': '|| WriterError::attribute_missing(&node, "name")', 'ret': 'r: WriterError', 'ensures': 'true'},
+                            {'at': '|| WriterError::attribute_missing(&node, "base")', 'ret': 'r: WriterError', 'ensures': 'true'},
+                            {'at': '|b| as_rust_type(b, doc)', 'ret': 'r: RustFieldType', 'ensures': 'true'}],
+                  inserts=[{'pos': 'body_start', 'text': reveal('restriction', 'list', 'union', 'name', 'base')},
+                           {'at': 'let rust_type = restriction', 'text': UNIQ}])
         close_container(out, im, f)
 
     def emit_facets(self, out, G, probe):
